@@ -160,10 +160,10 @@ func runC03(c *Ctx) {
 	}
 	if u := c.unit("C03-P4", "raft.newReady"); u != nil {
 		r.StoreValues("C03-P4", u, an.Store("raft.Ready.MustSync"), []string{"raft.MustSync(p0.hardState(), p2, len(rd.Entries))"}, 1)
-		r.StoreValues("C03-P4", u, an.Store("raft.Ready.HardState"), []string{"hardSt"}, 1)
+		r.StoreValues("C03-P4", u, an.Store("raft.Ready.HardState"), []string{"p0.hardState()"}, 1)
 		r.StoreValues("C03-P4", u, an.LocalStore("hardSt"), []string{"p0.hardState()"}, 1)
 		// the hard state is handed out whenever it differs from the previous one
-		r.Order("C03-P4", u, an.Return(), []an.M{an.Store("raft.Ready.HardState")}, an.OrderOpts{Assume: "!raft.isHardStateEqual(hardSt, p2)", Min: 1})
+		r.Order("C03-P4", u, an.Return(), []an.M{an.Store("raft.Ready.HardState")}, an.OrderOpts{Assume: "!raft.isHardStateEqual(p0.hardState(), p2)", Min: 1})
 		r.StoreValues("C03-P4", u, an.LocalStore("rd"), []string{"raft.Ready{Entries: p0.raftLog.unstableEntries(), Messages: p0.msgs}"}, 1)
 	}
 	if u := c.unit("C03-P4", "node.(*raftNode).replayWAL"); u != nil {
